@@ -269,6 +269,65 @@ def own_files(exe, root, seed, stats):
     a.destroy()
     return problems
 
+def missing_selection(exe, root, seed, stats):
+    """-m selects the files, links and empty directories that are MISSING, and nothing else is written: present objects that
+    differ from the record (links pointing elsewhere now - dangling or not - edited files, a file where a directory was
+    recorded) stay exactly as they are, and so do objects that are not recorded at all"""
+    rng = e2e.Rng(seed)
+    a = e2e.Arr(root, exe, ndisks=2 + rng.below(2), nparity=1 + rng.below(2), ncontent=1)
+    s = sim.Sim(a, rng.fork(), weird_names=False)
+    s.populate(3 + rng.below(2))
+    d0 = rng.choice(a.disks)
+    os.makedirs(a.path(d0, 'docs'), exist_ok=True)
+    a.write(d0, 'docs/v1.txt', rng.bytes(1500), s.tick()); a.write(d0, 'docs/v2.txt', rng.bytes(1700), s.tick())
+    os.symlink('v1.txt', a.path(d0, 'docs/latest'))            # resolves
+    os.symlink('nowhere-yet', a.path(d0, 'docs/pending'))      # dangling from the start
+    os.symlink('v2.txt', a.path(d0, 'docs/other'))
+    os.makedirs(a.path(d0, 'docs/emptydir'), exist_ok=True)
+    if s.sync().rc != 0:
+        a.destroy(); return []
+    # changes to PRESENT objects
+    for name, tgt in (('latest', 'v9-not-there.txt'), ('pending', 'still-nowhere'), ('other', 'v1.txt')):
+        if rng.chance(2, 3):
+            os.unlink(a.path(d0, 'docs/' + name)); os.symlink(tgt, a.path(d0, 'docs/' + name)); s.log('link docs/%s now points to %s' % (name, tgt))
+    if rng.chance(1, 2):
+        os.unlink(a.path(d0, 'docs/v1.txt')); s.log('docs/v1.txt deleted (the target of a recorded link)')
+    # missing objects
+    files = [f for f in s.existing_files() if not f[1].startswith('docs/')]
+    gone = []
+    for d, rel in files:
+        if rng.chance(1, 3): os.unlink(a.path(d, rel)); gone.append((d, rel))
+    if rng.chance(1, 2) and os.path.isdir(a.path(d0, 'docs/emptydir')): os.rmdir(a.path(d0, 'docs/emptydir'))
+    present_before = {}
+    for dp, dn, fn in os.walk(a.root):
+        for n in fn + dn:
+            q = os.path.join(dp, n)
+            if '/par/' in q or '/c0/' in q or q.endswith('.txt') and '/log' in q: continue
+            stq = os.lstat(q)
+            present_before[q] = ('l', os.readlink(q)) if os.path.islink(q) else (('d',) if os.path.isdir(q) else ('f', stq.st_size, stq.st_mtime_ns, open(q, 'rb').read()))
+    chkr = a.cmd('check', '-m')
+    r = a.cmd('fix', '-m')
+    stats['missing_selection'] = stats.get('missing_selection', 0) + 1
+    problems = []
+    for q, v in present_before.items():
+        if '/log' in q or q.endswith('.lock') or q.endswith('snapraid.conf'): continue
+        if not os.path.lexists(q):
+            problems.append(('[missing-selection] fix -m removed %s, which was present' % q.replace(a.root, '$A'), '')); break
+        w = ('l', os.readlink(q)) if os.path.islink(q) else (('d',) if os.path.isdir(q) else ('f', os.lstat(q).st_size, os.lstat(q).st_mtime_ns, open(q, 'rb').read()))
+        if w != v:
+            problems.append(('[missing-selection] fix -m rewrote %s, which was present (%s -> %s)' % (q.replace(a.root, '$A'), v[:2], w[:2]), '')); break
+    if not problems:
+        wrong = [t for t in chkr.tags if t.startswith(('symlink_error', 'hardlink_error')) and any(('docs/' + n) in t for n in ('latest', 'pending', 'other'))]
+        if wrong:
+            problems.append(('[missing-selection] check -m reports %s for a link that is present' % wrong[0][:120], ''))
+    if not problems and a.nparity >= 1:
+        back = [g for g in gone if not os.path.exists(a.path(*g))]
+        if back and len(set(d for d, _ in gone)) <= a.nparity and r.rc == 0:
+            problems.append(('[missing-selection] fix -m exits 0 but the missing file %s/%r is not restored' % back[0], ''))
+    hist = '\n'.join(s.history)
+    a.destroy()
+    return [(t, b + hist + '\n' + '\n'.join(x for x in r.tags if x.split(':')[0] in ('status', 'fixed', 'symlink_error', 'symlink_fixed'))[:1500]) for t, b in problems]
+
 def main(tier, seed):
     chk = vlib.Check('C18', 'proof', tier, seed)
     chk.assumptions = ['the build links the C library fnmatch(3) (HAVE_FNMATCH); the vendored cmdline/fnmatch.c is compiled separately and compared too, differences between the two are counted, the model is tied to the one in use',
@@ -287,7 +346,7 @@ def main(tier, seed):
         chk.violation('build of /repo failed: ' + str(e)[:300], str(e), False, 'build'); chk.finish()
     stats = {'fnm': 0, 'fnm_match': 0, 'vendored_differs_from_libc': 0, 'filter': 0, 'filter_results': {}, 'e2e_files': 0, 'selection_files': 0}
     nf, nr, ne = (6000, 6000, 24) if tier == 'quick' else (80000, 80000, 200)
-    jobs = [('fnm', i) for i in range(4)] + [('flt', i) for i in range(4)] + [('e2e', i) for i in range(ne)] + [('own', i) for i in range(8 if tier == 'quick' else 60)] + [('sel', i) for i in range(16 if tier == 'quick' else 160)]
+    jobs = [('fnm', i) for i in range(4)] + [('flt', i) for i in range(4)] + [('e2e', i) for i in range(ne)] + [('own', i) for i in range(8 if tier == 'quick' else 60)] + [('sel', i) for i in range(16 if tier == 'quick' else 160)] + [('mis', i) for i in range(12 if tier == 'quick' else 120)]
     def job(j):
         kind, i = j
         if kind == 'fnm':
@@ -296,6 +355,8 @@ def main(tier, seed):
             return filter_sweep(leaf, seed * 1000 + 100 + i, stats, nr // 4)
         if kind == 'sel':
             return selection_beyond_parity(exe, os.path.join(vlib.scratch(), 's%d' % i), seed * 1000 + 700 + i, stats)
+        if kind == 'mis':
+            return missing_selection(exe, os.path.join(vlib.scratch(), 'm%d' % i), seed * 1000 + 800 + i, stats)
         if kind == 'own':
             return own_files(exe, os.path.join(vlib.scratch(), 'o%d' % i), seed * 1000 + 600 + i, stats)
         return e2e_rules(exe, os.path.join(vlib.scratch(), 'r%d' % i), seed * 1000 + 200 + i, stats)
@@ -312,7 +373,7 @@ def main(tier, seed):
             chk.violation('C18 static obligation failed: ' + o[0], o[0] + '\n' + o[2], False, 'static')
     chk.evaluations = stats['fnm'] + stats['filter'] + stats['e2e_files']
     chk.distinct = stats['fnm_match'] + stats['filter']
-    chk.rule = ('FNM: all pairs of 1-2 pattern atoms x 10 short strings x both flag values + %d seeded (pattern, string) pairs over {a b c / * ? [ ] ! - \\ . x} incl. well-formed brackets, ranges, escapes, near-match strings: libc fnmatch as linked into the binary vs the Lean model (vendored fnmatch.c also run). RULES: %d seeded rule lists (file/dir, rooted/unrooted, globs, escapes, malformed) x paths x {file, dir-descent, empty dir}: filter_path/filter_subdir/filter_emptydir of the binary vs the Lean model incl. rejected rules. E2E: %d arrays with rules in the configuration: list after sync must equal the model; fix -f must restore exactly the selected files; arrays with a content copy in the root or a nested sub-directory of a data disk plus a stale .tmp: never listed, sync and check succeed' % (nf, nr, ne))
+    chk.rule = ('FNM: all pairs of 1-2 pattern atoms x 10 short strings x both flag values + %d seeded (pattern, string) pairs over {a b c / * ? [ ] ! - \\ . x} incl. well-formed brackets, ranges, escapes, near-match strings: libc fnmatch as linked into the binary vs the Lean model (vendored fnmatch.c also run). RULES: %d seeded rule lists (file/dir, rooted/unrooted, globs, escapes, malformed) x paths x {file, dir-descent, empty dir}: filter_path/filter_subdir/filter_emptydir of the binary vs the Lean model incl. rejected rules. E2E: %d arrays with rules in the configuration: list after sync must equal the model; fix -f must restore exactly the selected files; arrays with a content copy in the root or a nested sub-directory of a data disk plus a stale .tmp: never listed, sync and check succeed; fix -m / check -m on arrays whose PRESENT links were re-pointed (dangling or not): only missing objects are selected and written' % (nf, nr, ne))
     chk.samples = [dict(stats)]
     chk.corr['FILTER'] = dict(stats)
     chk.finish()
